@@ -388,7 +388,7 @@ example :
 then a `get` between snapshots queues a read (`rq = 1`), and the following `sync` window
 raises the estimate to 2, which the oracle allows because a read was waiting. -/
 example :
-    let t := Sync.trace exP [.adv 600000000, .ins 1 10, .ins 2 20, .sync, .get 1, .sync,
+    let t := Sync.trace exP [.adv Gen.PAST_SYNC_INTERVAL_NS, .ins 1 10, .ins 2 20, .sync, .get 1, .sync,
       .snap, .ins 1 11, .snap, .get 1, .snap, .sync, .snap]
     snapsOf t = [(true, 0, [(1, 1), (2, 0)]), (true, 0, [(1, 1), (2, 0)]),
       (true, 1, [(1, 1), (2, 0)]), (true, 0, [(1, 2), (2, 0)])] ∧
@@ -432,9 +432,9 @@ example :
     snapsOf (Unsync.trace exP [.ins 1 10, .snap, .ins 2 20, .snap]) =
       [(false, 0, [(1, 0)]), (true, 0, [(1, 0), (2, 0)])] ∧
     onlyGetC14 (Unsync.trace exP [.ins 1 10, .snap, .ins 2 20, .snap]) = true ∧
-    snapsOf (Sync.trace exP [.adv 600000000, .ins 1 10, .ins 2 20, .snap, .sync, .snap]) =
+    snapsOf (Sync.trace exP [.adv Gen.PAST_SYNC_INTERVAL_NS, .ins 1 10, .ins 2 20, .snap, .sync, .snap]) =
       [(false, 0, [(1, 0), (2, 0)]), (true, 0, [(1, 0), (2, 0)])] ∧
-    onlyGetC14 (Sync.trace exP [.adv 600000000, .ins 1 10, .ins 2 20, .snap, .sync, .snap]) = true ∧
+    onlyGetC14 (Sync.trace exP [.adv Gen.PAST_SYNC_INTERVAL_NS, .ins 1 10, .ins 2 20, .snap, .sync, .snap]) = true ∧
     onlyGetC14 [(.snap, .snap { exBefore with skOn := false, freqs := [(1, 3)] }), (.ins 2 20, .ok),
       (.snap, .snap { exBefore with skOn := true, freqs := [(1, 0)] })] = true ∧
     onlyGetC14 [(.snap, .snap { exBefore with skOn := false, freqs := [(1, 3)] }), (.ins 2 20, .ok),
